@@ -213,6 +213,23 @@ func foreignGobDoc(t *simrt.Tape) (doc []byte, seqs []uint64, shape string) {
 	}
 	fields := []gobField{{"Attack", gobTString}, {"Seq", gobTUint}, {"Code", gobTUint}}
 	seqAt := 1
+	// the Headers field as vegeta writes it, a map of string slices, so that a record may carry a map whose
+	// element count says more than the message holds (a length field that lies: a torn or damaged record)
+	hdrAt := -1
+	lie := false
+	if t.Prob(1, 2) {
+		lie = t.Prob(1, 2)
+		sl, mp := newID(), newID()
+		gobSliceDef(&out, sl, gobTString, name("Strings"))
+		gobMapDef(&out, mp, gobTString, sl, name("Header"))
+		fields = append(fields, gobField{"Headers", mp})
+		hdrAt = len(fields) - 1
+	}
+	firstForeign := len(fields)
+	if lie && depth > 0 && nForeign > 20000/depth {
+		// (kept apart from the cost of skipping foreign fields, which is a finding of its own)
+		nForeign = 20000 / depth
+	}
 	for i := 0; i < nForeign; i++ {
 		f := gobField{name: "a", id: types[t.Choose(len(types))]}
 		if t.Prob(1, 2) {
@@ -227,19 +244,38 @@ func foreignGobDoc(t *simrt.Tape) (doc []byte, seqs []uint64, shape string) {
 	gobStructDef(&out, st, fields, name("Result"))
 
 	n := 1 + t.Choose(3)
+	lied := false
 	for i := 0; i < n; i++ {
 		var v bytes.Buffer
 		gobInt(&v, st)
 		seq := uint64(1 + t.Choose(1000))
 		v.WriteByte(byte(1 + seqAt)) // skip Attack
 		gobUint(&v, seq)
+		last := seqAt
+		if hdrAt >= 0 && t.Prob(1, 2) {
+			gobUint(&v, uint64(hdrAt-last))
+			last = hdrAt
+			entries := t.Choose(3)
+			count := uint64(entries)
+			if lie && !lied && t.Prob(1, 2) {
+				count = []uint64{1 << 16, 1 << 24, 1 << 27, 1<<31 - 1}[t.Choose(4)]
+				lied = true
+				shape = "foreign gob types, a map count that lies"
+			}
+			gobUint(&v, count)
+			for e := 0; e < entries; e++ {
+				gobString(&v, "X-K"+string(rune('0'+e)))
+				gobUint(&v, 1)
+				gobString(&v, "v")
+			}
+		}
 		if nForeign > 0 && top != base && t.Prob(1, 2) {
 			// set the first foreign field whose type is the chain's top to a value nested a few levels deep
-			for j := 3; j < len(fields); j++ {
+			for j := firstForeign; j < len(fields); j++ {
 				if fields[j].id != top {
 					continue
 				}
-				gobUint(&v, uint64(j-seqAt))
+				gobUint(&v, uint64(j-last))
 				levels := 1 + t.Choose(min(depth, 40))
 				for l := 1; l < levels; l++ {
 					v.WriteByte(1) // one element, which is ...
@@ -250,7 +286,12 @@ func foreignGobDoc(t *simrt.Tape) (doc []byte, seqs []uint64, shape string) {
 		}
 		v.WriteByte(0)
 		gobMessage(&out, v.Bytes())
-		seqs = append(seqs, seq)
+		if !lied {
+			seqs = append(seqs, seq) // (the record with the lying count, and those behind it, need not decode)
+		}
 	}
-	return out.Bytes(), seqs, "foreign gob types"
+	if shape == "" {
+		shape = "foreign gob types"
+	}
+	return out.Bytes(), seqs, shape
 }
